@@ -18,7 +18,9 @@ Record gbuf := mkgbuf { g_buf : buf; g_off : nat }.
 
 Definition gline (data : bytes) (off : nat) : nat * option bytes :=
   if Nat.leb (length data) off then (0%nat, None)
-  else let '(line, _) := cut_line (skipn off data) in ((off + length line + 1)%nat, Some (cstr line)).
+  else let '(line, _) := cut_line (skipn off data) in
+       (* the advance is the expression regenerated from buffer_getline_impl: off += linelen + 1 *)
+       ((off + Z.to_nat (Gen_KsConst.getline_advance (Z.of_nat (length line))))%nat, Some (cstr line)).
 
 Section Getline.
 Variable init_cap : Z.
